@@ -199,7 +199,7 @@ func c05Class(list []budgetSpec, got, want int) string {
 
 // ---- system layer
 
-var c05NodeStates = []string{"empty", "drifted", "pod", "not-ready", "deleting", "marked", "uninitialized", "instance-terminating"}
+var c05NodeStates = []string{"empty", "drifted", "pod", "not-ready", "ready-unknown", "deleting", "marked", "uninitialized", "instance-terminating"}
 
 type c05Budgets struct {
 	name string
@@ -238,9 +238,9 @@ func multisets(n, k int) [][]int { // multisets of size exactly k over n symbols
 
 func c05System(r *ev.Rec) {
 	sizes := []int{2, 3, 4}
-	rounds := 2
+	rounds := 3
 	if r.Tier == "thorough" {
-		sizes, rounds = []int{2, 3, 4, 5}, 3
+		sizes, rounds = []int{2, 3, 4, 5, 6}, 3
 	}
 	var comps [][]int
 	for _, k := range sizes {
@@ -272,6 +272,8 @@ func c05System(r *ev.Rec) {
 				n.pods = []dPod{{name: fmt.Sprintf("q%d", i), cpu: 300}}
 			case "not-ready":
 				n.notReady = true
+			case "ready-unknown":
+				n.readyUnknown = true
 			case "deleting":
 				n.deleting = true
 			case "marked":
